@@ -104,6 +104,19 @@ def oracle_merge(mode, ts, r, st):
     return None
 
 
+def needs_escape(name):
+    """does escape_filename change this raw name? (then the escaped order may differ from the raw order)"""
+    try:
+        name.decode("utf-8")
+    except UnicodeDecodeError:
+        return True
+    return any(b in b'\\"\x07\x08\x0c\n\r\t\x0b' for b in name)
+
+
+def any_escape(t):
+    return any(needs_escape(n[0]) or (n[1] == 1 and any_escape(n[5])) for n in t)
+
+
 def sorted_rec(t):
     ns = [n[0] for n in t]
     return all(a < b for a, b in zip(ns, ns[1:])) and all(sorted_rec(n[5]) for n in t if n[1] == 1)
@@ -220,7 +233,8 @@ def run(ctx):
         hist["M_k=%d" % len(ts)] = hist.get("M_k=%d" % len(ts), 0) + 1
         if st.get("clash"): nontriv.add(ilines[ci])
         if e is not None:
-            viol.append(("merged tree is not the union of the inputs with conflicts resolved by the ordering", ilines[ci], io, e)); continue
+            viol.append(("merged tree is not the union of the inputs with conflicts resolved by the ordering", ilines[ci], io + " :: " + e,
+                         KNOWN_ESC if any(any_escape(t) for t in ts) else None)); continue
         if mout:
             order = ranks[ci]
             res = []
@@ -291,7 +305,8 @@ def run(ctx):
             if d.get("check") != "1" or d.get("dump_failures") != "0":
                 viol.append(("merged snapshot is not intact (check / dump)", ln, segs[0] + " " + segs[-1], None))
             if e is not None:
-                viol.append(("merge_snapshots: result is not the union of the paths with conflicts resolved by last_modified_node", ln, e, KNOWN_ESC if not wf else None))
+                viol.append(("merge_snapshots: result is not the union of the paths with conflicts resolved by last_modified_node", ln, e,
+                             KNOWN_ESC if any(any_escape(t) for t in ts) else None))
             elif wf and model:
                 ns = set()
                 for t in ts + [res]: all_names(t, ns)
